@@ -80,10 +80,11 @@ def build(config):
     try:
         if os.path.exists(os.path.join(out, "ok")):
             return out
-        # drop stale builds of this config
-        for d in os.listdir(CACHE):
-            if d.startswith(config + "-") and d != os.path.basename(out):
-                shutil.rmtree(os.path.join(CACHE, d), ignore_errors=True)
+        # drop stale builds of this config (keep the few most recent: seeded-change runs use other trees concurrently)
+        olds = sorted((d for d in os.listdir(CACHE) if d.startswith(config + "-") and d != os.path.basename(out)),
+                      key=lambda d: os.path.getmtime(os.path.join(CACHE, d)))
+        for d in olds[:-4] if len(olds) > 4 else []:
+            shutil.rmtree(os.path.join(CACHE, d), ignore_errors=True)
         shutil.rmtree(out, ignore_errors=True)
         os.makedirs(os.path.join(out, "obj"))
         inc = "-I%s/include -I%s/src" % (REPO, REPO)
